@@ -173,6 +173,20 @@ type Chain struct {
 
 	Stats *Stats
 	memoR *rand.Rand
+
+	// MinVersion is the lowest state version the current application object holds (it is > 1
+	// after a genesis export/import restart); Past keeps the earlier incarnations for
+	// ground-truth reads of old versions.
+	MinVersion int64
+	Past       []Incarnation
+	// InitAppHash is what the last InitChain returned (header app hash of the first block).
+	InitAppHash []byte
+}
+
+// Incarnation is an application object the chain ran before a genesis restart.
+type Incarnation struct {
+	App      *simapp.SimApp
+	From, To int64
 }
 
 const (
@@ -347,7 +361,7 @@ func (c *Chain) Block(t time.Time, txs []*TxSpec) []*TxResult {
 		ValidatorsHash:     c.Vals.Hash(),
 		NextValidatorsHash: c.NextVals.Hash(),
 		ConsensusHash:      unusedHash,
-		AppHash:            c.App.LastCommitID().Hash,
+		AppHash:            c.prevAppHash(),
 		LastResultsHash:    unusedHash,
 		EvidenceHash:       unusedHash,
 		ProposerAddress:    c.Vals.Proposer.Address,
@@ -395,6 +409,15 @@ func (c *Chain) Block(t time.Time, txs []*TxSpec) []*TxResult {
 		}
 	}
 	return out
+}
+
+// prevAppHash is the app hash a header carries: the hash after the previous block, or, for
+// the first block after InitChain, the hash InitChain returned.
+func (c *Chain) prevAppHash() []byte {
+	if h := c.App.LastCommitID().Hash; len(h) > 0 {
+		return h
+	}
+	return c.InitAppHash
 }
 
 func makeBlockID(hash []byte, partSetSize uint32, partSetHash []byte) cmttypes.BlockID {
@@ -599,9 +622,19 @@ func (c *Chain) StateAt(storeKey string, key []byte, v int64) []byte {
 	if v <= 0 {
 		return nil
 	}
-	ms, err := c.App.CommitMultiStore().CacheMultiStoreWithVersion(v)
+	app := c.App
+	if v < c.MinVersion {
+		// the version belongs to an incarnation of the chain before a genesis restart
+		for i := len(c.Past) - 1; i >= 0; i-- {
+			if v >= c.Past[i].From && v <= c.Past[i].To {
+				app = c.Past[i].App
+				break
+			}
+		}
+	}
+	ms, err := app.CommitMultiStore().CacheMultiStoreWithVersion(v)
 	Must(err, fmt.Sprintf("state of %s at version %d", c.ID, v))
-	return ms.GetKVStore(c.App.GetKey(storeKey)).Get(key)
+	return ms.GetKVStore(app.GetKey(storeKey)).Get(key)
 }
 
 // State reads a raw value from the latest committed state.
